@@ -19,6 +19,13 @@ type Inconclusive struct{ msg string }
 
 func (e *Inconclusive) Error() string { return e.msg }
 
+// HangErr: the driver was killed by the test runner's timeout with a goroutine blocked in a lock of package snaps
+type HangErr struct{ H *Hang }
+
+func (e *HangErr) Error() string {
+	return fmt.Sprintf("driver timed out with a goroutine blocked in [%s] at %s", e.H.State, e.H.Where)
+}
+
 func inconclusive(format string, a ...any) error {
 	return &Inconclusive{fmt.Sprintf(format, a...)}
 }
@@ -287,6 +294,9 @@ func runDriver(d *Driver, p *ProcSpec, scriptPath, tracePath string, timeout tim
 		return nil, inconclusive("driver produced no readable trace (%v); process error %v; output:\n%s", rerr, err, tail(out, 2000))
 	}
 	if len(evs) == 0 || evs[len(evs)-1].Ev != "exit" {
+		if h := hangOf(string(out)); h != nil {
+			return evs, &HangErr{h}
+		}
 		return evs, inconclusive("driver died before its exit event (process error %v); output:\n%s", err, tail(out, 2000))
 	}
 	return evs, nil
